@@ -63,6 +63,14 @@ func peerMain(args []string) int {
 			}
 			l.BusyTimeout(0)
 			reply("ok")
+		case "legacy":
+			// new databases of this connection use SQLite's legacy file format (DESC in index definitions ignored)
+			if l == nil {
+				reply("err no connection")
+				continue
+			}
+			l.LegacyFormat(true)
+			reply("ok")
 		case "close":
 			if l != nil {
 				l.Close()
